@@ -257,33 +257,40 @@ def run(ctx):
 
         def pure_call(t_):
             fr_ = M.callee_of(t_)
-            p_ = ((fr_ or {}).get("res") or {}).get("path") or (fr_ or {}).get("path") or ""
-            return p_.startswith(PU.PURE_STD_PREFIXES)
-        shapes_ok = True
+            res_ = (fr_ or {}).get("res") or {}
+            p_ = res_.get("path") or (fr_ or {}).get("path") or ""
+            if p_.startswith(PU.PURE_STD_PREFIXES):
+                return True
+            return bool(res_.get("repo")) and res_.get("key") in FD.insts and PU.is_pure(FD, res_["key"])
+        # decided on the monomorphic, INLINEd instances (callees resolved; the callers' guards are in sight): the assertion's code
+        # is in both bodies (dead under `if false` without debug assertions), so only sites in the debug-only blocks count
+        open_sites = []
+        n_new = 0
+        covered = set()
+        for ik, inst_d in FD.insts.items():
+            inst_a = FA.insts.get(ik)
+            if inst_a is None or CD.body_hash(inst_a) == CD.body_hash(inst_d):
+                continue
+            covered.add(inst_d.get("path"))
+            covered.update(inst_d.get("inlined") or [])
+            ok_i, why_i, dbg_blocks = CD.debug_only_difference(inst_a, inst_d, pure_call)
+            if not ok_i:
+                open_sites.append("%s: %s" % (ik[-60:], why_i))
+                continue
+            for s_ in P.sites_of(FD, inst_d):
+                if s_.bb in dbg_blocks:
+                    n_new += 1
+                    if s_.status != "discharged":
+                        open_sites.append(s_.key()[:160])
+        # a differing function without any instance in the three crates (generic API nobody instantiates): its polymorphic body
         for k_ in diff_d:
+            pth_ = FD.fns[k_].get("path") or k_
+            if pth_ in covered or k_ in covered or any(str(c_).startswith(str(pth_)) for c_ in covered):
+                continue
             ok_, why_, _blocks = CD.debug_only_difference(FA.fns[k_], FD.fns[k_], pure_call)
             if not ok_:
-                shapes_ok = False
-                explained.append("%s: %s" % (k_.split("::")[-1], why_))
-        if shapes_ok:
-            # the additional panic sites of the debug build, per instance whose (INLINEd) body differs
-            open_sites = []
-            n_new = 0
-            for ik, inst_d in FD.insts.items():
-                inst_a = FA.insts.get(ik)
-                if inst_a is None or CD.body_hash(inst_a) == CD.body_hash(inst_d):
-                    continue
-                # the same analysis on the INLINEd instance gives the debug-only blocks in the caller's context; the assertion's
-                # code is in both bodies (dead under `if false` without debug assertions), so only sites in those blocks count
-                ok_i, why_i, dbg_blocks = CD.debug_only_difference(inst_a, inst_d, pure_call)
-                if not ok_i:
-                    open_sites.append("%s: %s" % (ik[-60:], why_i))
-                    continue
-                for s_ in P.sites_of(FD, inst_d):
-                    if s_.bb in dbg_blocks:
-                        n_new += 1
-                        if s_.status != "discharged":
-                            open_sites.append(s_.key()[:160])
+                open_sites.append("%s: %s" % (k_.split("::")[-1], why_))
+        if True:
             if not open_sites:
                 ctx.ok("CD", "A-vs-D:debug-assertions", "the %d bodies that differ with debug assertions enabled differ only in `cfg!(debug_assertions)` "
                        "constants, their debug-only blocks have no effects, and the %d panic / arithmetic sites in those blocks cannot fire" % (len(diff_d), n_new), "",
